@@ -1,4 +1,6 @@
 import Cello.Str
+import Cello.StrLook
+import Cello.StrRecv
 import Cello.Hash
 import CelloGen.Str
 import Driver.Common
@@ -17,6 +19,10 @@ open Cello.Str
 def P : Params := CelloGen.Str.params
 /-- the position arithmetic of `print_to_with` as the translator read it from src/Show.c on this run -/
 def Q : PosParams := CelloGen.Str.posParams
+/-- String_Look's quote / escape characters, escape table and the place of its String_Clear, as read from src/String.c on this run -/
+def LK : LookParams := CelloGen.Str.lookParams
+/-- where the alloc checks of src/String.c stand, as read from the source on this run -/
+def G : GuardParams := CelloGen.Str.guardParams
 def J : Nat → Byte := fun _ => 0xA5
 
 def maxT : Nat := 16384
@@ -65,6 +71,14 @@ structure World where
   nCalls : Nat := 0      -- `format_to` calls made by `print_to_with` / `show_to`
   nStale : Nat := 0      -- states whose allocation is larger than the text + terminator
   nDisagree : Nat := 0
+  nStkRefused : Nat := 0 -- calls on a non-heap String that the alloc check refused
+  nStkRan : Nat := 0     -- calls on a non-heap String whose body ran (rem, assign(s, s))
+  nLookOk : Nat := 0     -- `look` that returned
+  nLookPlain : Nat := 0  -- characters appended as themselves
+  nLookEsc : Nat := 0    -- escapes undone
+  nLookNoQuote : Nat := 0
+  nLookEof : Nat := 0    -- the input ran out (unterminated, or a backslash at the end)
+  nLookBadEsc : Nat := 0
 
 def World.get (w : World) (k : Nat) : Option Str := (w.objs[k]?).join
 def World.getSpec (w : World) (k : Nat) : List Byte := ((w.spec[k]?).join).getD []
@@ -256,10 +270,52 @@ def oomOp (w : World) (rest : List String) : IO World := do
     return { w with nMut := w.nMut + 1 }
   | _ => bad; return w
 
+/-- `stk <stack|static> <what> <T> [args]`: one call on a String of class AllocStack / AllocStatic holding T (`recvStep` with the guard
+    positions read from the source) -/
+def stkOp (w : World) (rest : List String) : IO World := do
+  match rest with
+  | clsT :: what :: t :: args =>
+    let some c := (if clsT = "stack" then some Cls.stack else if clsT = "static" then some Cls.static else none) | do bad; return w
+    let some x := dehex t | do bad; return w
+    if x.length > 512 then bad; return w
+    let s : Str := ⟨x ++ [0]⟩
+    let small (a : String) : Option (List Byte) := (dehex a).bind fun y => if y.length > 512 then none else some y
+    let numS (a : String) : Option Nat := if a.length > 6 then none else num a
+    let call : Option (Option Op) := match what, args with
+      | "assign", [a] => (small a).map fun y => some (Op.assign y)
+      | "concat", [a] => (small a).map fun y => some (Op.concat y)
+      | "append", [a] => (small a).map fun y => some (Op.append y)
+      | "rem", [a] => (small a).map fun y => some (Op.rem y)
+      | "resize", [n] => (numS n).map fun n => some (Op.resize n)
+      | "clear", [] => some (some Op.clear)
+      | "fmt", [p, a] => (numS p).bind fun p => (small a).bind fun y => if p > x.length then none else some (some (Op.format p y))
+      | "assignself", [] => some none
+      | _, _ => none
+    let some call := call | do bad; return w
+    let out := match call with
+      | some op => recvStep G P J c s op
+      | none => recvAssignSelf G c s
+    match out with
+    | .refused =>
+      IO.println s!"O stk {clsT} {what} ValueError len={x.length} s={preview x}"
+      return { w with nMut := w.nMut + 1, nStkRefused := w.nStkRefused + 1 }
+    | .badRealloc =>
+      IO.println s!"O stk {clsT} {what} ub"
+      IO.println s!"R stk {clsT} {what} model=ub:realloc-of-a-pointer-not-from-malloc"
+      return { w with nMut := w.nMut + 1 }
+    | .ran r =>
+      let oc := match what, r.out with | "fmt", .ok n => s!"ret={n}" | _, o => outcomeStr o
+      IO.println s!"O stk {clsT} {what} {oc} len={r.st.abs.length} s={preview r.st.abs}"
+      let agree := r.safe && r.st.wfb && (match call with | some op => r.st.abs == Spec.step x op | none => r.st.abs == x)
+      IO.println (if agree then s!"R stk {clsT} {what} agree" else s!"R stk {clsT} {what} DISAGREE model={hexOf r.st.abs}")
+      return { w with nMut := w.nMut + 1, nStkRan := w.nStkRan + 1, nDisagree := w.nDisagree + (if agree then 0 else 1) }
+  | _ => bad; return w
+
 def stepOp (w : World) (toks : List String) : IO World := do
   match toks with
   | "alias" :: rest => aliasOp w rest
   | "oom" :: rest => oomOp w rest
+  | "stk" :: rest => stkOp w rest
   | op :: kt :: rest =>
     let some k := objIx kt | do bad; return w
     let live := w.get k
@@ -408,6 +464,24 @@ def stepOp (w : World) (toks : List String) : IO World := do
       let a := w.getSpec k
       let specText := if pos ≤ a.length && !x.isEmpty then a.take pos ++ x else a
       w.commit op k st (if raisesFormat items then "FormatError" else "ok") (lg.all Acc.inBounds) specText
+    | "look", [jt, pt], some s | "looks", [jt, pt], some s =>
+      -- look_from(s_k, s_j, pos) / scan_from(s_j, pos, "%$", s_k): `String_Look` = String_Clear + one String_Concat per character read
+      let some j := objIx jt | do bad; return w
+      let some sj := w.get j | do bad; return w
+      if j = k then bad; return w
+      let some pos := num pt | do bad; return w
+      if pos > 1000000 || pos > len sj then bad; return w
+      let r := look P LK J s sj.abs pos
+      -- the specification side: the same call as a history of clear / concat on the abstract strings kept beside the objects
+      let (ops, o) := lookOps LK (w.getSpec j) pos
+      let specText := Spec.run (w.getSpec k) ops
+      let (np, ne, how) := lookStats LK sj.abs pos
+      let w := { w with nLookPlain := w.nLookPlain + np, nLookEsc := w.nLookEsc + ne,
+                        nLookOk := w.nLookOk + (if how = 0 then 1 else 0), nLookNoQuote := w.nLookNoQuote + (if how = 1 then 1 else 0),
+                        nLookEof := w.nLookEof + (if how = 2 then 1 else 0), nLookBadEsc := w.nLookBadEsc + (if how = 3 then 1 else 0),
+                        nRaised := w.nRaised + (if how = 0 then 0 else 1) }
+      let oc := match r.out with | .ok n => s!"ret={n}" | x => outcomeStr x
+      w.commit op k r.st oc r.safe specText (r.out == o && ((how == 0) == (match r.out with | .ok _ => true | _ => false)))
     | "scanw", [pt], some s =>
       let some pos := num pt | do bad; return w
       if pos > 1000000 || pos > len s then bad; return w
@@ -452,4 +526,4 @@ def main (args : List String) : IO Unit := do
     if toks.isEmpty then continue
     nOps := nOps + 1
     w ← stepOp w toks
-  IO.println s!"S ops={nOps} mutations={w.nMut} raised={w.nRaised} remFound={w.nRemFound} grow={w.nGrow} shrink={w.nShrink} fmtIn={w.nFmtIn} fmtOut={w.nFmtOut} pct={w.nPct} show={w.nShow} calls={w.nCalls} slack={w.nStale} disagree={w.nDisagree}"
+  IO.println s!"S ops={nOps} mutations={w.nMut} raised={w.nRaised} remFound={w.nRemFound} grow={w.nGrow} shrink={w.nShrink} fmtIn={w.nFmtIn} fmtOut={w.nFmtOut} pct={w.nPct} show={w.nShow} calls={w.nCalls} slack={w.nStale} disagree={w.nDisagree} lookOk={w.nLookOk} lookPlain={w.nLookPlain} lookEsc={w.nLookEsc} lookNoQuote={w.nLookNoQuote} lookEof={w.nLookEof} lookBadEsc={w.nLookBadEsc} stkRefused={w.nStkRefused} stkRan={w.nStkRan}"
